@@ -4,6 +4,7 @@ mod consts;
 mod registry;
 mod defrag;
 mod fuzz;
+mod hello;
 mod observe;
 mod project;
 mod states;
@@ -85,6 +86,7 @@ fn main() {
         "defrag-fuzz" => defrag::cmd_defrag_fuzz(&args[2..]),
         "sweep-ciphers" => sweeps::cmd_ciphers(&args[2..]),
         "sweep-registry" => registry::cmd_registry(&args[2..]),
+        "hello" => hello::cmd_hello(&args[2..]),
         "sweep-sites" => sweeps::cmd_sites(&args[2..]),
         "states-sweep" => states::cmd_sweep(&args[2..]),
         "states-run" => states::cmd_run(&args[2..]),
